@@ -25,11 +25,18 @@ def shape_blog(cfg):
             if opts is None:
                 return {}
             o = dict(opts)
+            if cfg.get('mgr_excl'):
+                # the exclusion is configured for the manager only (make_versioned(options={'exclude': ...})): no
+                # class has an 'exclude' key of its own, manager.option() falls back to the manager's value
+                o.pop('exclude', None)
+                o.pop('include', None)
             o.update(extra or {})
             return {'__versioned__': o}
 
         excl = ['x'] + (['notes'] if cfg.get('excl_notes') else [])
-        if cfg.get('include_x'):
+        if cfg.get('mgr_excl'):
+            art_extra = {}
+        elif cfg.get('include_x'):
             art_extra = {'exclude': excl, 'include': ['x']}
         else:
             art_extra = {'exclude': excl}
@@ -144,7 +151,29 @@ def shape_inh(cfg):
     return build
 
 
-SHAPES = {'blog': shape_blog, 'comp': shape_comp, 'own': shape_own, 'inh': shape_inh}
+def shape_dup(cfg):
+    """Two versioned classes with the SAME __name__ ('Doc') living in different modules, and a third class 'Memo';
+    flat, integer keys, columns a, b (the situation the option use_module_name exists for)."""
+    import sqlalchemy as sa
+
+    def build(env, Base, opts):
+        def mk(module, table, name):
+            attrs = dict(__tablename__=table, __module__=module,
+                         id=sa.Column(sa.Integer, primary_key=True, autoincrement=False),
+                         a=sa.Column(sa.Integer), b=sa.Column(sa.Integer))
+            if opts is not None:
+                attrs['__versioned__'] = dict(opts)
+            return type(name, (Base,), attrs)
+        import warnings
+        with warnings.catch_warnings():
+            warnings.simplefilter('ignore')
+            env.classes = [mk('shop.models', 'shop_doc', 'Doc'), mk('blog.models', 'blog_doc', 'Doc'),
+                           mk('blog.models', 'memo', 'Memo')]
+        env.assoc = []
+    return build
+
+
+SHAPES = {'blog': shape_blog, 'comp': shape_comp, 'own': shape_own, 'inh': shape_inh, 'dup': shape_dup}
 
 
 def model_classes(env):
@@ -195,7 +224,21 @@ def plugins_for(cfg):
 
 
 def options_for(cfg):
-    return {'strategy': cfg.get('strategy', 'validity')}
+    o = {'strategy': cfg.get('strategy', 'validity')}
+    if cfg.get('shape') == 'dup':
+        o['use_module_name'] = True
+    if cfg.get('mgr_excl'):
+        o['exclude'] = ['x'] + (['notes'] if cfg.get('excl_notes') else [])
+    return o
+
+
+def effective_option(env, cls, name):
+    """The documented resolution of a versioning option: the class's __versioned__ wins, the value given to
+    make_versioned() is the fallback (computed from what the harness configured, not through the package)."""
+    vo = getattr(cls, '__versioned__', {})
+    if name in vo:
+        return list(vo[name])
+    return list((env.opts or {}).get(name, []))
 
 
 # ------------------------------------------------------------------ reflection of the configuration
@@ -209,8 +252,8 @@ def reflect_cfg(env, cfg):
         colkeys = part['colkeys']
         versioned = hasattr(cls, '__versioned__')
         vo = getattr(cls, '__versioned__', {})
-        exclude = list(vo.get('exclude', []))
-        include = list(vo.get('include', []))
+        exclude = effective_option(env, cls, 'exclude')
+        include = effective_option(env, cls, 'include')
 
         def is_excl(key):
             return key in exclude and key not in include
@@ -282,6 +325,9 @@ def gen_program(rng, cfg, n_ops=None, weights=None):
     elif shape == 'own':
         classes = [0, 1]
         keypool = {0: [1, 2], 1: [1, 2, 3]}
+    elif shape == 'dup':
+        classes = [0, 1, 1, 2]
+        keypool = {0: [1, 2], 1: [1, 2], 2: [1, 2]}
     elif shape == 'inh':
         # one key space (item.id) for the whole hierarchy, but a key is never reused by ANOTHER class: closing the
         # predecessor closes every table of the predecessor's class, which the per-table model does not follow
@@ -387,6 +433,8 @@ def gen_vals(rng, cfg, c):
         names = ['a']
     elif cfg['shape'] == 'inh':
         names = {0: ['a'], 1: ['a', 'pages'], 2: ['a', 'tracks']}[c]
+    elif cfg['shape'] == 'dup':
+        names = ['a', 'b']
     else:
         names = {0: ['a', 'b'], 1: ['a', 'title']}[c]
     d = {}
@@ -431,7 +479,7 @@ class Recorder(object):
                 self.nonver_keys.append([k for k in self.colkeys[ci]
                                          if not any(c.primary_key for c in sa.inspect(cls).get_property(k).columns)])
             else:
-                ex, inc = list(vo.get('exclude', [])), list(vo.get('include', []))
+                ex, inc = effective_option(env, cls, 'exclude'), effective_option(env, cls, 'include')
                 self.nonver_keys.append([k for k in self.colkeys[ci] if k in ex and k not in inc])
         self.assoc_idx = {t: i for i, t in enumerate(env.assoc)}
         # table handles are resolved once: they must survive remove_versioning()
@@ -700,7 +748,15 @@ class Recorder(object):
                 ct = env.Base.metadata.tables['transaction_changes']
                 names = [c.__name__ for c in self.classes]
                 for row in conn.execute(sa.select(ct)).mappings():
-                    if row['entity_name'] in names:
+                    if names.count(row['entity_name']) > 1:
+                        # several classes share the name (the plugin records __name__): the one row stands for every
+                        # class of that name which has a version stamped with the transaction
+                        for ci_, nm_ in enumerate(names):
+                            if nm_ == row['entity_name']:
+                                for mi in self.parts_of[ci_]:
+                                    if any(v['tab'] == self.parts[mi]['tab'] and v['tx'] == row['transaction_id'] for v in vt):
+                                        chg.append([row['transaction_id'], mi])
+                    elif row['entity_name'] in names:
                         # one recorded name stands for every part (table) of the class
                         for mi in self.parts_of[names.index(row['entity_name'])]:
                             chg.append([row['transaction_id'], mi])
@@ -784,6 +840,12 @@ def run_program(env, cfg, prog, record=True, plain=False, fault=None):
         if o is not None:
             return o
         o = s.get(classes[c], coerce_key(env, c, key))
+        if o is not None and type(o) is not classes[c]:
+            # a query through the base class of a hierarchy found an entity of ANOTHER class under this key: the
+            # program names (class, key); that entity is not the one it means (operating on it would change the
+            # class of a key within one flush - a row switch across classes, which the Layer-B model does not
+            # express; class changes are exercised by the twin-run corpus cases of C07)
+            return None
         if o is not None:
             refs[rk] = o
         return o
@@ -848,7 +910,9 @@ def run_program(env, cfg, prog, record=True, plain=False, fault=None):
                     # ['delbase', cls, key]: the object is loaded through the base class of its hierarchy (the columns
                     # of the child table are not loaded), then deleted
                     _, c, key = op
-                    refs.pop((c, json.dumps(key)), None)
+                    held = refs.pop((c, json.dumps(key)), None)
+                    if held is not None and held in s and held not in s.new and not s.is_modified(held):
+                        s.expunge(held)         # a clean, fully loaded object: drop it so that the base-class load is partial
                     base = sa.inspect(classes[c]).base_mapper.class_
                     o = s.get(base, coerce_key(env, c, key))
                     if o is None or not isinstance(o, classes[c]):
